@@ -29,7 +29,7 @@ ASSUMPTIONS = [
     "line orientation (fbus/tbus, the flag direction_changed and the buses' from/to lists, re-derived by every load flow and restored to the as-built orientation by create_sections) is not part of the compared reset state; its irrelevance for the results is covered by the byte-identity of the result files in (b) - which include a second Monte Carlo run on the same Simulation object -, by C15 and by the re-preparation class of C20",
 ]
 F = Fraction
-ORIENTATION = {"fromline", "fromline_list", "toline", "toline_list", "nextbus", "fbus", "tbus", "repair_time_dist"}
+ORIENTATION = {"fromline", "toline", "repair_time_dist"}       # the two single-line pointers of a bus are not restored by a reset (the orientation pass of every load flow sets them again)
 
 
 def fresh(spec, n_inc, seed=0):
@@ -133,6 +133,17 @@ def gen(rng, n_reset, n_mc):
         spec = net.rand_feeder_spec(rng, max_lines=5, ctrl=rng.choice(["manual", "manual", "main"]))
         if spec.get("mg") and rng.random() < 0.5:
             spec["mg"]["mode"] = rng.choice(["limited", "survival"])
+        feeder_fault = False
+        if j % 5 == 3:
+            # targeted: a microgrid whose hosting feeder is still sectioning when the run ends (the timers the feeder hands to the
+            # microgrid are running)
+            while not spec.get("mg"):
+                spec = net.rand_feeder_spec(rng, max_lines=5, ctrl=rng.choice(["manual", "manual", "main"]))
+            spec["mg"]["mode"] = rng.choice(["limited", "survival", "full"])
+            spec["ctrl"]["T"] = str(rng.choice([2, 3]))
+            if spec["ctrl"].get("type") == "main":
+                spec["ctrl"]["nodev"] = [f"SF0L{i}" for i in range(len(spec["feeders"][0]["parent"]))]     # no sensors: the sectioning takes the manual time
+            feeder_fault = True
         n_inc = rng.choice([5, 7, 9])
         case = {"kind": "reset", "spec": spec, "n_inc": n_inc, "dt": "1"}
         quiet_bus = None
@@ -151,15 +162,18 @@ def gen(rng, n_reset, n_mc):
                 faults.setdefault(str(k), []).append(["trafo", rng.choice(buses), "6"])
             else:
                 faults.setdefault(str(k), []).append(["line", rng.choice(names), str(rng.choice([4, 6, 8]))])
+        if feeder_fault:
+            faults = {str(n_inc - rng.choice([0, 1])): [["line", rng.choice([nm for nm in names if nm.startswith("F0L")]), "8"]]}
         if quiet_bus is not None:
             faults.setdefault(str(rng.randint(max(1, n_inc - 2), n_inc)), []).append(["trafo", ps0.get_comp(f"F0L{quiet_bus}").tbus.name, "6"])
         case["faults"] = faults
         cases.append(case)
     # corpus: minimised past failures run first (the witness of fix "a reset turns the lines back ...")
     import json as _json, os as _os
-    wp = _os.path.join(_os.path.dirname(__file__), "corpus", "c08_orientation_witness.json")
-    if _os.path.exists(wp):
-        cases.append(_json.load(open(wp)))
+    for wn in ("c08_orientation_witness.json", "c08_lineorder_witness.json"):
+        wp = _os.path.join(_os.path.dirname(__file__), "corpus", wn)
+        if _os.path.exists(wp):
+            cases.append(_json.load(open(wp)))
     for j in range(n_mc):
         # alternately manual control and an ICT-based main controller
         spec = net.rand_feeder_spec(rng, max_lines=4, ctrl=["main", "manual"][j % 2], allow_tie=False)
